@@ -43,6 +43,9 @@ pub fn so2_lattice(r: &mut Sm, n_random: usize, noncanonical: bool) -> Vec<f64> 
             -1000.5,
             1e6,
             2.0 * PI * 1e6 + 0.5,
+            // more than 2^31 turns away
+            1.5e10,
+            -2.0 * PI * 3.0e9 - 1.0,
         ]);
     }
     for _ in 0..n_random {
